@@ -895,6 +895,22 @@ pub fn outcome_summary(run: &Run, with_payload: bool) -> (Option<String>, Vec<St
     (value, reports)
 }
 
+/// where child errors were handed over (order-insensitive): also something the error type receives
+pub fn handover_summary(run: &Run) -> Vec<String> {
+    let mut v: Vec<String> = run
+        .events
+        .iter()
+        .filter_map(|e| match e {
+            Event::Merge { loc, ty, other_ty, other_reports, .. } => {
+                Some(format!("E{ty}<-E{other_ty} x{} at {}", other_reports.len(), path_str(loc)))
+            }
+            _ => None,
+        })
+        .collect();
+    v.sort();
+    v
+}
+
 /// what the returned error holds, as descriptors of the reports (order-insensitive)
 pub fn returned_summary(run: &Run) -> Vec<String> {
     let acts = actual_reports(&run.events);
